@@ -31,9 +31,12 @@ Inductive case :=
 | AcceptRun (dtls : bool) (script : list (accept_err * bool)) (o_calls o_served o_reported : Z)
 (* stream server over loopback: per well-behaved client (request, observed (code, token, plen, pcs)) *)
 | TcpRun (goods : list (list (greq * option owire) * Z * Z * list hcall)) (alive probe stopped : bool) (panics : Z)
-(* discovery: registered (token, receiver), responses sent (token, sender id, tag), datagram events for the model,
-   observed deliveries (receiver, remote address id of the connection passed, tag), tags that reached the application *)
-| DiscRun (registered : list (list Z * Z)) (sent : list (list Z * Z * Z)) (o_deliv : list (Z * Z * Z)) (o_app : list (Z * Z)).
+(* a peer alternates a refused datagram and a ping while the housekeeping sweep runs concurrently:
+   observed connections announced, errors, Resets received, datagrams dropped with
+   "cannot get client connection" *)
+| RaceRun (lst : addr) (a : addr) (pairs : nat) (garbage ping : list Z) (o_news o_errs o_pongs o_dropped : Z)
+(* discovery on a live server: steps (Spec.dstep) with, for responses, the sender's address and the datagram *)
+| DiscRun (lst : addr) (dst : option ip) (steps : list (dstep * addr * list Z)).
 
 (* ---- building the event list of a run from the send order ---- *)
 Fixpoint pop_nth {A} (i : nat) (qs : list (list A)) : option A * list (list A) :=
@@ -125,6 +128,42 @@ Definition goods_of (peers : list peer_obs) : list (list (greq * option owire) *
      [(flat_map (fun s => match s_req s with Some q => [(q, s_obs s)] | None => [] end) (p_sends p), p_newconn p, p_errs p, p_hlog p)]
      else []) peers.
 
+(* ---- stream server: expected answer from the application model ---- *)
+Fixpoint path_of_tag (rs : list (list (list Z) * Z)) (tag : Z) : list (list Z) :=
+  match rs with [] => [[122; 122]] | (p, t) :: r => if t =? tag then p else path_of_tag r tag end.
+Definition tcp_resp_agrees (q : greq) (o : owire) : bool :=
+  match app_behaviour {| m_typ := 0; m_code := q_code q; m_mid := 0; m_tok := q_tok q;
+                         m_opts := map (fun seg => (uri_path_id, seg)) (path_of_tag routes (q_route q)); m_pay := q_pay q |} with
+  | BResp code _ pay => (ow_code o =? code) && bytes_eqb (ow_tok o) (q_tok q) && (ow_plen o =? blen pay) && (ow_pcs o =? csum pay)
+  | BNone => false
+  end.
+
+(* ---- discovery ---- *)
+Definition first_byte (l : list Z) : Z := match l with b :: _ => b | [] => -1 end.
+Fixpoint disc_agrees (lst : addr) (dst : option ip) (s : sstate cstate) (steps : list (dstep * addr * list Z)) : bool :=
+  match steps with
+  | [] => true
+  | (st, a, d) :: r =>
+      let e := match st with
+               | DS_Start tok rcv _ => EDiscStart tok rcv
+               | DS_End tok => EDiscEnd tok
+               | DS_Resp _ _ _ _ _ | DS_Ping => EDgram a lst dst d
+               end in
+      match cserver_step 65536 s e with
+      | SPanic => false
+      | SOk s1 outs =>
+          (match st with
+           | DS_Start _ _ ex => Bool.eqb ex (existsb (fun o => match o with SDiscExists => true | _ => false end) outs)
+           | DS_End _ | DS_Ping => true
+           | DS_Resp sender _ _ od oa =>
+               (sender =? a_port a)
+               && list_eqb deliv_eqb od
+                    (flat_map (fun o => match o with SOut _ k (CDeliver rcv _ _ pay) => [(rcv, a_port (fst k), first_byte pay)] | _ => [] end) outs)
+               && Bool.eqb oa (existsb (fun o => match o with SOut _ _ (CHandled _ _ _) => true | _ => false end) outs)
+           end) && disc_agrees lst dst s1 r
+      end
+  end.
+
 Definition agrees (c : case) : bool :=
   match c with
   | UdpRun maxsize lst dst peers sched alive probe stopped panics =>
@@ -143,23 +182,29 @@ Definition agrees (c : case) : bool :=
       let '(calls, served, reported) := accept_loop script 0 0 0 in
       (match calls with Some n => n | None => -1 end =? oc) && (served =? os) && (reported =? orp)
   | TcpRun goods alive probe stopped panics =>
-      (* structural isolation: each accepted connection is its own state machine; the model of a client's
-         exchange is the application applied to each request *)
+      (* structural isolation: each accepted connection is its own machine; the model of a client's
+         exchange is the application applied to each of its requests, on one connection, in order *)
       alive && probe && stopped && (panics =? 0)
       && forallb (fun g => let '(xs, nc, ne, log) := g in
-                   forallb (fun x => match snd x with
-                                     | Some o => match app_behaviour {| m_typ := 0; m_code := q_code (fst x); m_mid := 0; m_tok := q_tok (fst x);
-                                                                         m_opts := []; m_pay := q_pay (fst x) |} with
-                                                 | _ => true end
-                                     | None => false end) xs) goods
-  | DiscRun registered sent od oa => true
+                   (nc =? 1) && (ne =? 0) && list_eqb hcall_eqb (map (fun x => hcall_of (fst x)) xs) log
+                   && forallb (fun x => match snd x with Some o => tcp_resp_agrees (fst x) o | None => false end) xs) goods
+  | DiscRun lst dst steps => disc_agrees lst dst (init_state 0) steps
+  | RaceRun lst a pairs g p on oe op od =>
+      match cserver_run 65536 (init_state 0)
+              (flat_map (fun _ => [EDgram a lst None g; ETick; EDgram a lst None p]) (seq 0 pairs)) with
+      | Some (_, outs) =>
+          (count_new a outs =? on) && (count_err a outs =? oe) && (blen (filter is_pong (wires_to a outs)) =? op) && (od =? 0)
+      | None => false
+      end
   end.
 
 Definition pclass (c : case) : N :=
   match c with
   | UdpRun _ _ _ peers _ alive probe stopped panics => c10_run_class alive probe stopped panics (goods_of peers)
   | TcpRun goods alive probe stopped panics => c10_run_class alive probe stopped panics goods
-  | DiscRun registered sent od _ => if c10_disc_ok registered sent od then 0%N else 7%N
+  | DiscRun _ _ steps => if disc_ok [] (map (fun x => fst (fst x)) steps) then 0%N else 7%N
+  (* every ping must be answered: a datagram for a key whose connection was closed is served by a replacement, not dropped *)
+  | RaceRun _ _ pairs _ _ _ _ op od => if (od =? 0) && (op =? Z.of_nat pairs) then 0%N else 8%N
   | _ => 0%N
   end.
 
